@@ -361,7 +361,9 @@ def mon_fault(case, lines):
         if k == K['FAULT']:
             what = {1: 'write window opened while a read window is open', 2: 'read window opened while a write window is open',
                     3: 'two write windows open', 4: 'read of a half-written value',
-                    5: 'use of a destroyed version'}.get(v, 'fault %d' % v)
+                    5: 'use of a destroyed version',
+                    9: 'the private copy of a write handle was list-initialised from the committed object (T{x}): the '
+                       'initializer_list constructor was selected, the handle holds a one-element wrapper, not a copy'}.get(v, 'fault %d' % v)
             return 'thread %d at trace line %d: %s on obj%d (a version payload, or one of the two shared_ptr objects of the inner lr_guarded)' % (t, i, what, o)
     f = _final(lines)
     if f and len(f) >= 11 and f[10] != 0:
